@@ -68,7 +68,7 @@ def plan(tier, seed):
         kinds = {"random": 6000, "overlapping": 1500, "adversarial": 1500, "exact": 2500, "crowd": 3}
         per = 750
     else:
-        kinds = {"random": 400000, "overlapping": 80000, "adversarial": 80000, "exact": 120000, "crowd": 60}
+        kinds = {"random": 400000, "overlapping": 80000, "adversarial": 80000, "exact": 120000, "crowd": 16}
         per = 10000
     out += common.shards(kinds, per_shard=per, tier=tier, seed=seed)
     _out = out
